@@ -53,6 +53,10 @@ CLAIMED = {
          "Every (pattern, sequence, budget, mode, window) of four bounded families is enumerated by TLC, which checks the specification's own theorems and exports the hit sets. The real FindAllIndex / IsMatching / ReverseComplement must report exactly those. FilterBestMatch, AllMatches, BestMatch and LocatePattern answers, and large random scenarios, are accepted or rejected by TLC re-evaluating the specification on each logged event. Model checking fits because the failure modes are positional and enumerable.",
          "Trusted: TLC, the Go event encoder, SequencesExt!FoldLeft. Bounded: |P| <= 4, |S| <= 6 exhaustively; random patterns <= 64, sequences <= 10^4 (<= 12 000 DP cells in indel mode). Not asserted: '#' with indels, re-alignment of non-letter patterns or sequences with ambiguity codes, circular sequences.",
          "DESIGN.md 5 C10"),
+ "C14": ("TLC model checking of TaxModel.tla (every labelled rooted tree up to 5/6 nodes x rank assignments x merged-id aliases: LCA algebra, path, clade, rank, alias and filter laws, walking definitions equal to reference definitions); every exported taxonomy is replayed through obitax (API and LoadNCBITaxDump) and, on a sample, the real obigrep/obiannotate; TLC validates query traces on random trees up to 5 000 nodes",
+         "All taxonomies up to 6 nodes are enumerated by TLC, which checks on the model that LCA is the deepest common ancestor (commutative, associative, idempotent), that paths, clades, taxon-at-rank and alias resolution agree with the tree, and that the code-shaped walks equal the reference definitions. Every expected answer is replayed on the real obitax through both loaders and on the obigrep -t -r/-i/--require-rank and obiannotate --with-taxon-at-rank/--add-lca-in binaries. Random trees of thousands of nodes are judged event by event by a TLC trace specification.",
+         "Trusted: TLC, the harness's encoding and decoding (NCBI dump layout, FASTA/JSON headers, -1/NA read as no taxon). Bounded: exhaustive up to 6 nodes, 3 node ranks + 1 absent, merged ids on one node parity; random up to 5 000 nodes; sequence LCA at zero tolerance only; a binary run is repeated up to twice on a non-reproducible crash.",
+         "DESIGN.md 5 C14"),
 }
 
 NOT_YET = "check not built yet in this round (planned, see DESIGN.md 10); not claimed"
